@@ -9,7 +9,13 @@ swallowed) against Model/Lifecycle.v: calls made, status, quota, the event strea
 D: at every simulationStarted the complete state (clock, queue, finder, id counter, loci, process event
 tables and own fields, working network with all attributes) and then the whole remaining run (every
 event, results) must equal those of a FRESH experiment object given the same random source; the
-prototype graph must equal a deep copy taken before; the quota."""
+prototype graph must equal a deep copy taken before; the quota.  Next to these differential clauses there are ABSOLUTE ones
+(class- or module-level history is seen by the fresh object too): the parameters handed to _generate are this run's own,
+the working network at simulationStarted is the prototype's value (plus what this run's processes wrote), a new object
+with attribute dictionaries of its own; at every simulationStarted the harness writes a sentinel into every attribute
+dictionary of the working network, which must show up neither in the prototype nor in a later working network.
+A second stream ('ops') drives the generator directly: a word over generate / next / for-iteration / set / run against the
+limit, the freshness of every network handed out and the parameters it is generated from."""
 import ast
 import copy
 import os
@@ -70,7 +76,12 @@ class Control:
         self.armed = None
         self.handlers = 0
         self.fired = False
-        self.generated = 0
+        self.generated = 0          # calls of _generate that returned
+        self.yielded = 0            # networks handed out: by generate() inside a run, or to the harness by generate()/next()
+        self.direct = False         # the harness itself is calling the generator (stream 'ops')
+        self.genparams = None
+        self.genparams_d = None
+        self.nets = []              # every working network of this object so far (kept alive: identities stay unique)
 
     def arm(self, inj):
         self.calls = []
@@ -163,8 +174,12 @@ def build_experiment(case, limit):
     proto = compart.make_graph(case['graph'])
     for n in proto.nodes():
         proto.nodes[n]['label'] = 'n%s' % n
+        proto.nodes[n]['tags'] = ['t', n]                 # a mutable value (networkx copies attribute dicts shallowly: no clause on it)
     for a, b in proto.edges():
         proto.edges[a, b]['w'] = a + b
+        proto.edges[a, b]['via'] = [a, b]
+    proto.graph['title'] = 'prototype'                    # graph-level attributes
+    proto.graph['meta'] = ['m', proto.order()]
     # the generator is observed through a SUBCLASS (class-level overrides): instance-level wrappers would travel with a
     # copy of the object and call back into the original, hiding what a copied generator does to the quota
     base = ep.FixedNetwork
@@ -177,19 +192,33 @@ def build_experiment(case, limit):
         def generate(self):
             g = super().generate()
             ctl.calls.append('gen1' if g is not None else 'gen0')
+            if g is not None and not ctl.direct:
+                ctl.yielded += 1
             return g
 
         def _generate(self, params):
             ctl.hit('generate')
             ctl.genparams = repr(sorted(params.items(), key=repr))      # what this run's network is generated from
+            ctl.genparams_d = dict(params)
             g = super()._generate(params)
             ctl.generated += 1
             return g
     if case.get('frozen') and case['family'] != 'generated':
         proto = networkx.freeze(proto)          # a read-only reference network is a legal prototype too
-    gen = Counting(limit=limit) if case['family'] == 'generated' else Counting(proto, limit=limit)
+    if case['family'] == 'generated':
+        gen = Counting(dict(case['ctor_params']), limit=limit) if case.get('ctor_params') is not None else Counting(limit=limit)
+    else:
+        gen = Counting(proto, limit=limit)
     dcls = ep.StochasticDynamics if case['dynamics'] == 'stochastic' else ep.SynchronousDynamics
-    dyn = dcls(top, gen)
+    plain = case.get('plain') if case['family'] != 'generated' else None
+    if plain == 'ctor':
+        dyn = dcls(top, proto)                  # a literal network where a generator is expected
+    elif plain == 'setter':
+        dyn = dcls(top, networkx.path_graph(9))
+        dyn.setNetworkGenerator(proto)          # ... replacing the one given at construction
+    else:
+        dyn = dcls(top, gen)
+    gen = dyn.networkGenerator()
 
     # ---- observation wrappers (instance attributes; the classes stay untouched)
     def wrap(obj, name, tag, after=False):
@@ -214,8 +243,70 @@ def build_experiment(case, limit):
 
 
 def graph_value(g):
-    return {'nodes': {n: dict(d) for n, d in g.nodes(data=True)},
-            'edges': {tuple(sorted((a, b))): dict(d) for a, b, d in g.edges(data=True)}}
+    return copy.deepcopy({'nodes': {n: dict(d) for n, d in g.nodes(data=True)},
+                          'edges': {tuple(sorted((a, b))): dict(d) for a, b, d in g.edges(data=True)},
+                          'graph': dict(g.graph)})
+
+
+def own_dicts(g, proto):
+    """no attribute dictionary of g is an attribute dictionary of proto (what Graph.copy() promises; values may be shared)"""
+    if g is proto:
+        return False
+    if g.graph is proto.graph:
+        return False
+    if any(g.nodes[n] is proto.nodes[n] for n in g.nodes() if n in proto.nodes):
+        return False
+    return not any(g.edges[a, b] is proto.edges[a, b] for a, b in g.edges() if proto.has_edge(a, b))
+
+
+def probed(gv):
+    """the harness's sentinel is present in a graph value"""
+    return ('_probe' in gv['graph'] or any('_probe' in d for d in gv['nodes'].values())
+            or any('_probe' in d for d in gv['edges'].values()))
+
+
+def write_probe(g, mark):
+    for n in g.nodes():
+        g.nodes[n]['_probe'] = mark
+    for a, b in g.edges():
+        g.edges[a, b]['_probe'] = mark
+    g.graph['_probe'] = mark
+
+
+def sub(a, b):
+    return all(k in b and b[k] == a[k] for k in a)
+
+
+def is_copy_of(net, pv, exact, edges_may_go):
+    """net (a graph value) is the prototype's value pv; if not exact, plus attributes written by the run's own processes
+    and (Percolate) minus edges"""
+    if exact:
+        return net == pv
+    return (set(net['nodes']) == set(pv['nodes']) and all(sub(pv['nodes'][n], net['nodes'][n]) for n in pv['nodes'])
+            and (set(net['edges']) <= set(pv['edges']) if edges_may_go else set(net['edges']) == set(pv['edges']))
+            and all(sub(pv['edges'][e], net['edges'][e]) for e in net['edges'] if e in pv['edges'])
+            and sub(pv['graph'], net['graph']))
+
+
+def param_leak(handed, own, universe):
+    """the parameters handed to _generate against the parameter point they must come from: a missing or changed key, or a
+    key of ANOTHER parameter point of this case (keys the library itself may add, like the topology marker, are no leak)"""
+    if handed is None:
+        return None
+    bad = {k: [handed.get(k, '<missing>'), own[k]] for k in own if k not in handed or handed[k] != own[k]}
+    bad.update({k: [handed[k], '<absent>'] for k in handed if k not in own and k in universe})
+    return bad or None
+
+
+def key_universe(case):
+    u = set()
+    for r in case['runs']:
+        u |= set(r['params'])
+    for op in case.get('ops') or []:
+        if op[0] == 'set':
+            u |= set(op[1])
+    u |= set(case.get('ctor_params') or {})
+    return u
 
 
 def snapshot(dyn, leaves, proto, params):
@@ -239,6 +330,7 @@ def snapshot(dyn, leaves, proto, params):
             'procloci': sorted(sorted(d.keys()) for d in dyn._processLoci.values()),
             'procs': procs, 'net': graph_value(net) if net is not None else None,
             'net_distinct': net is not proto, 'topology': params.get('topology'),
+            'net_own_dicts': net is None or own_dicts(net, proto),
             'results_empty': dyn._results == {}, 'metadata_keys': sorted(dyn._metadata.keys())}
 
 
@@ -249,12 +341,21 @@ def one_run(dyn, ctl, leaves, proto, gen, case, j, run):
     inj = run['inject']
     ctl.arm(tuple(inj) if isinstance(inj, list) else inj)
     params = dict(run['params'])
-    obs = {'started': None, 'taps': [], 'results': None, 'budget': False}
+    obs = {'started': None, 'taps': [], 'results': None, 'budget': False, 'genparams_d': None}
+    ctl.direct = False
+    ctl.genparams = None
+    ctl.genparams_d = None
 
     def started(params_):
         ctl.calls.append('started')
         obs['started'] = snapshot(dyn, leaves, proto, params_)
         obs['started']['generator_params'] = getattr(ctl, 'genparams', None)
+        net = dyn.network()
+        obs['started']['net_new'] = not any(net is x for x in ctl.nets)
+        obs['genparams_d'] = None if ctl.genparams_d is None else dict(ctl.genparams_d)
+        if net is not None:
+            ctl.nets.append(net)
+            write_probe(net, 'run%d' % j)        # must never be seen again: not in the prototype, not by a later run
     dyn.simulationStarted = started
 
     def ended(res):
@@ -288,7 +389,7 @@ def one_run(dyn, ctl, leaves, proto, gen, case, j, run):
     md = dyn.metadata()
     obs.update({'calls': list(ctl.calls), 'fired': ctl.fired, 'raised': raised,
                 'status': md.get(epyc.Experiment.STATUS), 'exception': type(md.get(epyc.Experiment.EXCEPTION)).__name__ if md.get(epyc.Experiment.EXCEPTION) is not None else None,
-                'remaining': gen._remaining, 'generated': ctl.generated,
+                'remaining': gen._remaining, 'generated': ctl.generated, 'yielded': ctl.yielded,
                 'left_queue': len(dyn._postedEvents), 'left_finder': len(dyn._postedEventFinder),
                 'time': md.get('epydemic.monitor.time'), 'events': md.get('epydemic.monitor.events'),
                 'results': repr(sorted((rc or {}).get(epyc.Experiment.RESULTS, {}).items(), key=repr)) if rc else None,
@@ -304,8 +405,8 @@ class H(Harness):
                     'epydemic/monitor.py', 'epydemic/standard_generators.py', 'epydemic/generator.py', 'epydemic/percolate.py']
     TIE_IMPORT = 'From EpyV Require Import Model.Kernel Model.Lifecycle Tie.C10.'
     CHECK_FN = 'EpyV.Tie.C10.check_case'
-    QUICK_N = 300
-    THOROUGH_N = 1500
+    QUICK_N = 330
+    THOROUGH_N = 1650
     CASE_TIMEOUT = 40
     ALLOWED_AXIOMS = set()
     RULE = ('sequences of 2-6 runs on one experiment object; 60% ScriptProcess sequences (1-2 processes, table selected by the parameter '
@@ -315,7 +416,12 @@ class H(Harness):
             'reset, at the start or the end of build, at the start or the end of set-up, at the entry of the k-th event handler (k=1..8), '
             'in results collection or in tear-down, fatal or swallowed; generator limit none/0/1/2/3; both dynamics; plus an exhaustive '
             'block: for two fixed scenarios an exception at the k-th event for every k up to past the end of the run, followed by a clean '
-            'run; non-trivial = at least one injected failure actually fired and a later run reached simulationStarted')
+            'run; 8% of the fixed-network cases hand the experiment a literal networkx Graph (constructor, or setNetworkGenerator replacing another '
+            'network) instead of a generator (D only); prototypes carry node, edge and graph-level attributes, some with list values, 20% are frozen; '
+            'plus a stream of n/5 cases driving the generator directly (FixedNetwork 50%, ER/BA/PLC 50%, limit none/0/1/2/3): a word of 3-8 '
+            'operations over generate(), next(), a for-loop over the generator (left after 1, 2 or 5 networks), set(params) with changing key sets '
+            'and runs of the experiment that owns the generator (D only); non-trivial = at least one injected failure actually fired and a later '
+            'run reached simulationStarted, or (generator stream) the limit was reached')
     TRUSTED = ['Coq 8.16.1 kernel incl. vm_compute', 'harness/c10.py (instance-level wrappers for the call trace, snapshots through private attributes), '
                'harness/kscript.py, vlib/oracle.py', 'networkx Graph.copy modelled as allocation of a new object with the same value']
     ASSUMPTIONS = ['user processes keep per-run state only in fields that their reset() re-initialises (true of the shipped classes by the '
@@ -324,7 +430,30 @@ class H(Harness):
 
     # ------------------------------------------------------------- generation
     def gen_cases(self, tier, rnd, n):
-        return [self.gen_case(rnd) for _ in range(n)]
+        return [self.gen_case(rnd) for _ in range(n)] + [self.gen_ops_case(rnd) for _ in range(max(1, n // 5))]
+
+    def gen_ops_case(self, rnd):
+        """the generator driven directly: a word over generate / next / for-iteration / set(params) / run"""
+        fam = rnd.choices(['script', 'shipped', 'generated'], [15, 35, 50])[0]
+        case = self.gen_case(rnd, family=fam)
+        case.pop('plain', None)
+        case['limit'] = rnd.choice([None, None, 0, 1, 2, 3, 3])
+        case['runs'] = [self.gen_run(rnd, case, p_inject=0.15) for _ in range(2)]
+        if fam == 'generated':
+            case['ctor_params'] = self.gen_run(rnd, case)['params']     # generate() before any set() works from these
+        ops = []
+        for _ in range(rnd.randrange(3, 9)):
+            kind = rnd.choices(['generate', 'next', 'iter', 'set', 'run'], [3, 3, 1, 2, 2])[0]
+            if kind == 'iter':
+                ops.append(['iter', 2 if case['limit'] is None else rnd.choice([1, 5, 5])])     # the loop is left after so many networks (5: to the end of a bounded generator)
+            elif kind == 'set':
+                ops.append(['set', self.gen_run(rnd, case)['params']])
+            elif kind == 'run':
+                ops.append(['run', rnd.randrange(2)])
+            else:
+                ops.append([kind])
+        case['ops'] = ops
+        return case
 
     def gen_run(self, rnd, case, p_inject=0.45):
         run = {'inject': None, 'fatal': rnd.random() < 0.4}
@@ -390,6 +519,10 @@ class H(Harness):
             case['procs'] = procs
         case['runs'] = [self.gen_run(rnd, case) for _ in range(rnd.randrange(2, 7))]
         case['frozen'] = rnd.random() < 0.2
+        if family != 'generated' and rnd.random() < 0.08:
+            # a literal networkx Graph where a generator is expected (constructor or setNetworkGenerator)
+            case['plain'] = rnd.choice(['ctor', 'setter'])
+            case['limit'] = None
         return case
 
     def exhaustive_cases(self, tier):
@@ -399,6 +532,7 @@ class H(Harness):
         for fam in ('script', 'shipped'):
             base = self.gen_case(rnd, family=fam)
             base['limit'] = None
+            base.pop('plain', None)
             ok = self.gen_run(rnd, base, p_inject=0.0)
             for k in range(1, 13 if tier == 'quick' else 25):
                 c = copy.deepcopy(base)
@@ -410,6 +544,19 @@ class H(Harness):
         return out
 
     # ------------------------------------------------------------- execution
+    def run_and_fresh(self, case, dyn, ctl, leaves, proto, gen, before, j, run):
+        """run number j on the re-used object and, unless the generator was exhausted, the same run on a FRESH object"""
+        o = one_run(dyn, ctl, leaves, proto, gen, case, j, run)
+        o['proto_same'] = (o.pop('proto') == before)
+        # the same run on a FRESH experiment object (unbounded generator) given the same random source
+        if 'gen0' not in o['calls']:
+            d2, c2, l2, p2, t2, g2 = build_experiment(case, None)
+            f = one_run(d2, c2, l2, p2, g2, case, j, run)
+            f.pop('proto')
+            f.pop('_rc', None)
+            o['fresh'] = {k: f[k] for k in ('started', 'taps', 'results', 'time', 'events', 'status', 'exception', 'raised', 'fired', 'calls', 'left_queue', 'left_finder')}
+        return o
+
     def execute(self, case):
         import logging
         import epyc
@@ -417,60 +564,175 @@ class H(Harness):
         dyn, ctl, leaves, proto, top, gen = build_experiment(case, case['limit'])
         before = graph_value(proto)
         runs = []
-        for j, run in enumerate(case['runs']):
-            o = one_run(dyn, ctl, leaves, proto, gen, case, j, run)
-            o['proto_same'] = (o.pop('proto') == before)
-            # the same run on a FRESH experiment object (unbounded generator) given the same random source
-            if 'gen0' not in o['calls']:
-                d2, c2, l2, p2, t2, g2 = build_experiment(case, None)
-                f = one_run(d2, c2, l2, p2, g2, case, j, run)
-                f.pop('proto')
-                f.pop('_rc', None)
-                o['fresh'] = {k: f[k] for k in ('started', 'taps', 'results', 'time', 'events', 'status', 'exception', 'raised', 'fired', 'calls', 'left_queue', 'left_finder')}
-            runs.append(o)
+        steps = []
+        if case.get('ops'):
+            self.execute_ops(case, dyn, ctl, leaves, proto, gen, before, runs, steps)
+        else:
+            for j, run in enumerate(case['runs']):
+                runs.append(self.run_and_fresh(case, dyn, ctl, leaves, proto, gen, before, j, run))
         # what an earlier run returned stays what it was, whatever later runs on the same objects do
         import epyc as _epyc
         for o in runs:
             rc = o.pop('_rc', None)
             o['results_later'] = repr(sorted((rc or {}).get(_epyc.Experiment.RESULTS, {}).items(), key=repr)) if rc else None
             (o.get('fresh') or {}).pop('_rc', None)
-        return {'runs': runs, 'limit': case['limit']}
+        return {'runs': runs, 'steps': steps, 'limit': case['limit'], 'proto_value': before}
+
+    def execute_ops(self, case, dyn, ctl, leaves, proto, gen, before, runs, steps):
+        """the generator driven directly, interleaved with runs of the experiment it belongs to"""
+        import random as _random
+        import numpy as _numpy
+        fixed = case['family'] != 'generated'
+        handed = []                 # every network handed to the harness, kept alive
+        cur = dict(case['ctor_params']) if case.get('ctor_params') is not None else ({} if fixed else None)
+        for i, op in enumerate(case['ops']):
+            kind = op[0]
+            s = {'op': kind, 'index': i, 'run': None, 'items': 0, 'networks': 0, 'stopped': None, 'expected_params': None,
+                 'genparams': None, 'new_objects': True, 'is_proto': False, 'values_ok': True, 'own_dicts': True}
+            if kind == 'run':
+                j = len(runs)
+                o = self.run_and_fresh(case, dyn, ctl, leaves, proto, gen, before, j, case['runs'][op[1]])
+                o['run_index'] = op[1]
+                runs.append(o)
+                s['run'] = j
+                cur = None          # what the generator is left with after a run is the experiment's business
+            else:
+                ctl.arm(None)
+                ctl.direct = True
+                ctl.genparams = None
+                ctl.genparams_d = None
+                install(Oracle(seed=case['seed'] + 1000 + i))
+                _random.seed(case['seed'] + 1000 + i)
+                _numpy.random.seed((case['seed'] + 1000 + i) % (1 << 32))
+                items = []
+                if kind == 'set':
+                    r = gen.set(dict(op[1]))
+                    s['returns_self'] = r is gen
+                    cur = dict(op[1])
+                elif kind == 'generate':
+                    g = gen.generate()
+                    s['stopped'] = g is None
+                    if g is not None:
+                        items.append(g)
+                elif kind == 'next':
+                    try:
+                        items.append(next(gen))
+                        s['stopped'] = False
+                    except StopIteration:
+                        s['stopped'] = True
+                elif kind == 'iter':
+                    s['stopped'] = True
+                    for g in gen:                       # __iter__ and __next__; cut after op[1] items (a runaway iterator is reported, not hung)
+                        items.append(g)
+                        if len(items) >= op[1]:
+                            s['stopped'] = False
+                            break
+                else:
+                    raise ValueError(kind)
+                ctl.direct = False
+                s['items'] = len(items)
+                s['expected_params'] = None if cur is None else dict(cur)
+                s['genparams'] = None if ctl.genparams_d is None else dict(ctl.genparams_d)
+                for g in items:
+                    if not isinstance(g, networkx.Graph):
+                        continue
+                    s['networks'] += 1
+                    ctl.yielded += 1
+                    if g is proto:
+                        s['is_proto'] = True
+                    if any(g is x for x in handed) or any(g is x for x in ctl.nets):
+                        s['new_objects'] = False
+                    if fixed:
+                        if graph_value(g) != before:
+                            s['values_ok'] = False
+                        if not own_dicts(g, proto):
+                            s['own_dicts'] = False
+                    handed.append(g)
+                    write_probe(g, 'op%d' % i)
+            s.update({'generated': ctl.generated, 'yielded': ctl.yielded, 'remaining': gen._remaining,
+                      'proto_same': graph_value(proto) == before})
+            steps.append(s)
 
     # ------------------------------------------------------------- D
+    def direct_run(self, case, obs, j, run, o, v):
+        limit = case['limit']
+        fixed = case['family'] != 'generated'
+        where = {'run': j, 'inject': run['inject']}
+        if o['budget']:
+            return
+        if not o['proto_same']:
+            v.append({'signature': 'prototype-modified', 'detail': where})
+        if o.get('results') is not None and o.get('results_later') != o['results']:
+            v.append({'signature': 'results-of-an-earlier-run-changed-by-a-later-run', 'detail': dict(where, returned=o['results'][:300], later=(o.get('results_later') or '')[:300])})
+        if limit is not None and (o['generated'] > limit or o['yielded'] > limit):
+            v.append({'signature': 'generator-exceeded-its-limit', 'detail': dict(where, generated=o['generated'], yielded=o['yielded'], limit=limit)})
+        st = o['started']
+        f = o.get('fresh')
+        if st is None and f is not None and f['started'] is not None:
+            v.append({'signature': 'run-does-not-start-because-of-history', 'detail': dict(where, calls=o['calls'], exception=o['exception'])})
+        if st is not None:
+            if not st['net_distinct']:
+                v.append({'signature': 'working-network-is-the-prototype', 'detail': where})
+            if st['clock'] != 0.0:
+                v.append({'signature': 'run-does-not-start-at-time-0', 'detail': dict(where, clock=st['clock'])})
+            # ---- absolute clauses: they hold of this object alone, whatever a fresh object does
+            if not st['net_new']:
+                v.append({'signature': 'working-network-was-the-working-network-of-an-earlier-run', 'detail': where})
+            if st['net'] is not None and probed(st['net']):
+                v.append({'signature': 'working-network-carries-attributes-written-by-an-earlier-run', 'detail': dict(where, net=st['net'])})
+            if fixed and st['net'] is not None:
+                if not st['net_own_dicts']:
+                    v.append({'signature': 'working-network-shares-attribute-dictionaries-with-the-prototype', 'detail': where})
+                if not is_copy_of(st['net'], obs['proto_value'], case['family'] == 'script', 'percolate' in (case.get('procs') or [])):
+                    v.append({'signature': 'working-network-is-not-a-copy-of-the-prototype', 'detail': dict(where, net=st['net'], prototype=obs['proto_value'])})
+            leak = param_leak(o.get('genparams_d'), run['params'], key_universe(case))
+            if leak:
+                v.append({'signature': 'network-generated-from-other-parameters-than-this-run-s',
+                          'detail': dict(where, differing=leak, handed=o['genparams_d'], own=run['params'])})
+            # ---- differential clauses
+            if f['started'] is None:
+                v.append({'signature': 'fresh-object-did-not-start', 'detail': where})
+            else:
+                diff = [k for k in st if st[k] != f['started'][k]]
+                if diff:
+                    v.append({'signature': 'state-at-simulationStarted-depends-on-history:' + ','.join(sorted(diff)),
+                              'detail': dict(where, differing={k: [st[k], f['started'][k]] for k in diff})})
+                else:
+                    for k in ('taps', 'results', 'time', 'events', 'status', 'exception', 'raised', 'fired', 'left_queue', 'left_finder'):
+                        if o[k] != f[k]:
+                            v.append({'signature': 'run-outcome-depends-on-history:' + k, 'detail': dict(where, reused=o[k], fresh=f[k])})
+                            break
+
     def direct(self, case, obs):
         v = []
         limit = case['limit']
-        for j, (run, o) in enumerate(zip(case['runs'], obs['runs'])):
-            where = {'run': j, 'inject': run['inject']}
-            if o['budget']:
-                continue
-            if not o['proto_same']:
-                v.append({'signature': 'prototype-modified', 'detail': where})
-            if o.get('results') is not None and o.get('results_later') != o['results']:
-                v.append({'signature': 'results-of-an-earlier-run-changed-by-a-later-run', 'detail': dict(where, returned=o['results'][:300], later=(o.get('results_later') or '')[:300])})
-            if limit is not None and o['generated'] > limit:
-                v.append({'signature': 'generator-exceeded-its-limit', 'detail': dict(where, generated=o['generated'], limit=limit)})
-            st = o['started']
-            f = o.get('fresh')
-            if st is None and f is not None and f['started'] is not None:
-                v.append({'signature': 'run-does-not-start-because-of-history', 'detail': dict(where, calls=o['calls'], exception=o['exception'])})
-            if st is not None:
-                if not st['net_distinct']:
+        if case.get('ops'):
+            for o in obs['runs']:
+                self.direct_run(case, obs, o['run_index'], case['runs'][o['run_index']], o, v)
+            for s in obs['steps']:
+                where = {'op': s['index'], 'kind': s['op'], 'word': [op[0] for op in case['ops']], 'limit': limit}
+                if limit is not None and (s['generated'] > limit or s['yielded'] > limit):
+                    v.append({'signature': 'generator-exceeded-its-limit', 'detail': dict(where, generated=s['generated'], yielded=s['yielded'])})
+                if not s['proto_same']:
+                    v.append({'signature': 'prototype-modified', 'detail': where})
+                if s['run'] is not None:
+                    continue
+                if s['is_proto']:
                     v.append({'signature': 'working-network-is-the-prototype', 'detail': where})
-                if st['clock'] != 0.0:
-                    v.append({'signature': 'run-does-not-start-at-time-0', 'detail': dict(where, clock=st['clock'])})
-                if f['started'] is None:
-                    v.append({'signature': 'fresh-object-did-not-start', 'detail': where})
-                else:
-                    diff = [k for k in st if st[k] != f['started'][k]]
-                    if diff:
-                        v.append({'signature': 'state-at-simulationStarted-depends-on-history:' + ','.join(sorted(diff)),
-                                  'detail': dict(where, differing={k: [st[k], f['started'][k]] for k in diff})})
-                    else:
-                        for k in ('taps', 'results', 'time', 'events', 'status', 'exception', 'raised', 'fired'):
-                            if o[k] != f[k]:
-                                v.append({'signature': 'run-outcome-depends-on-history:' + k, 'detail': dict(where, reused=o[k], fresh=f[k])})
-                                break
+                if not s['new_objects']:
+                    v.append({'signature': 'generator-handed-out-a-network-it-had-handed-out-before', 'detail': where})
+                if not s['values_ok']:
+                    v.append({'signature': 'working-network-is-not-a-copy-of-the-prototype', 'detail': where})
+                if not s['own_dicts']:
+                    v.append({'signature': 'working-network-shares-attribute-dictionaries-with-the-prototype', 'detail': where})
+                if s['networks'] > 0 and s['expected_params'] is not None:
+                    leak = param_leak(s['genparams'], s['expected_params'], key_universe(case))
+                    if leak:
+                        v.append({'signature': 'network-generated-from-other-parameters-than-those-set',
+                                  'detail': dict(where, differing=leak, handed=s['genparams'], set=s['expected_params'])})
+        else:
+            for j, (run, o) in enumerate(zip(case['runs'], obs['runs'])):
+                self.direct_run(case, obs, j, run, o, v)
         seen = {}
         for x in v:
             seen.setdefault(x['signature'], x)
@@ -480,6 +742,8 @@ class H(Harness):
     def to_coq(self, case, obs):
         if case['family'] == 'generated':
             return None                 # ensembles of networkx: the differential against a fresh object (D) only
+        if case.get('ops') or case.get('plain'):
+            return None                 # the generator driven directly / a literal network (no Counting subclass to observe generate()): D only
         script = case['family'] == 'script'
         tables = L.lst([kcommon.c_table(t) for t in case['tables']]) if script else '[]'
         g = compart.make_graph(case['graph'])
@@ -521,13 +785,20 @@ class H(Harness):
             'None' if case['limit'] is None else '(Some %s)' % L.nat(case['limit']), L.lst(runs))
 
     def nontrivial(self, case, obs):
+        if case.get('ops'):
+            if case['limit'] is not None and any(s['stopped'] for s in obs['steps'] if s['run'] is None and s['op'] != 'set'):
+                return str((case['seed'], 'ops', [op[0] for op in case['ops']]))      # the limit was actually reached
+            return None
         fired = [j for j, o in enumerate(obs['runs']) if o['fired']]
         if fired and any(o['started'] is not None for o in obs['runs'][fired[0] + 1:]):
             return str((case['seed'], case['family'], len(case['runs'])))
         return None
 
     def sample_view(self, case, obs):
-        return {'family': case['family'], 'limit': case['limit'], 'runs': [
+        if case.get('ops'):
+            return {'family': case['family'], 'limit': case['limit'], 'ops': [
+                {'op': s['op'], 'items': s['items'], 'stopped': s['stopped'], 'generated': s['generated'], 'remaining': s['remaining']} for s in obs['steps']]}
+        return {'family': case['family'], 'limit': case['limit'], 'plain': case.get('plain'), 'runs': [
             {'inject': r['inject'], 'fatal': r['fatal'], 'calls': o['calls'], 'status': o['status'], 'remaining': o['remaining'],
              'events': len(o['taps']), 'left_queue': o['left_queue']} for r, o in zip(case['runs'], obs['runs'])]}
 
